@@ -287,7 +287,8 @@ def _run_kernels(ck, hb, db, nfiles, nk, nargs, work):
         text, kernels = gen_source(r, nk)
         path = os.path.join(work, "f%d.okl" % f)
         open(path, "w").write(text)
-        hf = ["FILE " + hx(path), "FLAGS " + hx(flags), "COMPILER " + hx(cc)]
+        mode = "OpenMP" if f % 3 == 1 else "Serial"      # setupRun is mode independent; the OpenMP device shares the serial cache path
+        hf = ["MODE " + mode, "FILE " + hx(path), "FLAGS " + hx(flags), "COMPILER " + hx(cc)]
         hc = list(hf)
         plan = []
         for kname, ps in kernels:
@@ -335,7 +336,7 @@ def _run_kernels(ck, hb, db, nfiles, nk, nargs, work):
                                           "\n".join("BUILD %s fresh" % k for k, _, _ in plan))
         for o in ora1[fi] + ora2[fi]:
             ck.oracle_violation(o, where, name="okl")
-        fpos, cpos, mpos = 3, 3, len(memkeys)
+        fpos, cpos, mpos = 4, 4, len(memkeys)
         for kname, ps, lists in plan:
             sig = "%s(%s)" % (kname, ", ".join(("const " if c else "") + vt.decl(n) for c, vt, n in ps))
 
@@ -407,7 +408,7 @@ def _run_kernels(ck, hb, db, nfiles, nk, nargs, work):
     ck.cov["distinct_nontrivial"] += nb
     if plans:
         path, text, plan = plans[0]
-        ck.cov["samples"].append({"okl": text[:600], "fresh": fresh[0][3:9], "cached": cached[0][3:9]})
+        ck.cov["samples"].append({"okl": text[:600], "fresh": fresh[0][4:10], "cached": cached[0][4:10]})
 
 
 def replay_okl(ck, lines):
@@ -428,23 +429,23 @@ def replay_okl(ck, lines):
         cc = os.path.join(work, "ccwrap.sh")
         open(cc, "w").write(CCWRAP)
         os.chmod(cc, os.stat(cc).st_mode | stat.S_IEXEC)
-        head = ["FILE " + hx(path), "FLAGS " + hx("-O0 -w -include " + os.path.join(work, "vec.h")), "COMPILER " + hx(cc)]
+        head = ["MODE Serial", "FILE " + hx(path), "FLAGS " + hx("-O0 -w -include " + os.path.join(work, "vec.h")), "COMPILER " + hx(cc)]
         env = {"OCCA_CACHE_DIR": os.path.join(work, "occa_cache"), "ASAN_OPTIONS": "detect_leaks=0:abort_on_error=0:exitcode=66"}
         ub = r"dtype/|dtype\.(cpp|hpp)|kernelMetadata|core/kernel\.cpp|vartype\.cpp"
         f, o1, _ = ck.run_impl(hk, [head + ops], timeout=600, env=env, ubsan_is_violation=ub)
         c, o2, _ = ck.run_impl(hk, [head + [l.replace(" fresh", " cached") for l in ops]], timeout=600, env=env, ubsan_is_violation=ub)
-        print("fresh :", f[0][3:])
-        print("cached:", c[0][3:])
+        print("fresh :", f[0][4:])
+        print("cached:", c[0][4:])
         for o in o1[0] + o2[0]:
             ck.oracle_violation(o, "\n".join(lines), name="okl")
-        runs_f = [x for x, l in zip(f[0][3:], ops) if l.startswith("RUN")]
-        runs_c = [x for x, l in zip(c[0][3:], ops) if l.startswith("RUN")]
+        runs_f = [x for x, l in zip(f[0][4:], ops) if l.startswith("RUN")]
+        runs_c = [x for x, l in zip(c[0][4:], ops) if l.startswith("RUN")]
         if runs_f != runs_c:
             ck.oracle_violation("fresh and cached kernels decide differently: fresh %s, cached %s" % (runs_f, runs_c), "\n".join(lines), name="okl")
         if want and any(x != want for x in runs_f + runs_c):
             ck.oracle_violation("decision differs from the compatibility rule: %s / %s, expected %s" % (runs_f, runs_c, want), "\n".join(lines), name="okl")
-        metas = [x.split(" meta=")[-1] for x in f[0][3:] + c[0][3:] if x.startswith("built ")]
-        if len(set(metas)) > 1 or any("init=0" in x for x in f[0][3:] + c[0][3:]):
+        metas = [x.split(" meta=")[-1] for x in f[0][4:] + c[0][4:] if x.startswith("built ")]
+        if len(set(metas)) > 1 or any("init=0" in x for x in f[0][4:] + c[0][4:]):
             ck.oracle_violation("metadata of the cached kernel differs from the fresh one (or is not initialized)", "\n".join(lines), name="okl")
     finally:
         shutil.rmtree(work, ignore_errors=True)
